@@ -1,4 +1,5 @@
 import IV.Lemmas.BaseParsers
+import IV.Lemmas.BaseParsersExt
 import IV.Gen.BadLines
 /-!
 C14 — base parsers accept well-formed content and reject bad content as documented.
@@ -630,5 +631,401 @@ example : resolve false ⟨2024, 6, 1, 0⟩ ⟨none, 1, 1, 0⟩ = some ⟨2024, 
 example : getAfter (fun l => if l = "s1".toList then some ⟨none, 1, 1, 5⟩ else if l = "s0".toList then some ⟨none, 12, 31, 5⟩ else none)
     false ⟨2024, 1, 1, 0⟩ none ["c0".toList, "s0".toList, "c1".toList, "s1".toList, "c2".toList]
     = .ok ["s1".toList, "c2".toList] := by decide
+
+/-! ### round 10 — argument checks of `get` / `in` (lines 1059-1064, 1085-1086) -/
+
+/-- glue: an optional int as the `num` argument -/
+def numArgOf : Option Int → NumArg
+  | none => .none
+  | some k => .int k
+
+/-- TypeError exactly when `num` is not an int / None, the search item is of a wrong type or an empty list, or the
+item is None and a line is examined while there is still room (`None(l)` is called) -/
+theorem get_py_type_error_iff (t : TermArg) (c : Chk) (num : NumArg) (rev : Bool) (lines : List Line) :
+    getPy t c num rev lines = .typeError ↔
+      num = .bad ∨ t = .bad ∨ t = .ok (.many []) ∨
+      (t = .none ∧ num ≠ .bad ∧ lines ≠ [] ∧ ∀ k, num = .int k → 0 < k) := by
+  cases num with
+  | bad => simp [getPy, numOf]
+  | none =>
+    cases t with
+    | bad => simp [getPy, numOf]
+    | ok t' =>
+      have h := get_type_error_iff t' c none rev lines
+      cases hg : get t' c none rev lines <;> simp_all [getPy, numOf]
+    | none => cases lines <;> simp [getPy, numOf, roomAtStart]
+  | int n =>
+    cases t with
+    | bad => simp [getPy, numOf]
+    | ok t' =>
+      have h := get_type_error_iff t' c (some n) rev lines
+      cases hg : get t' c (some n) rev lines <;> simp_all [getPy, numOf]
+    | none => cases lines <;> simp [getPy, numOf, roomAtStart]
+
+example : getPy .none .all (.int 0) false ["x".toList] = .ok [] := by decide
+example : getPy .none .all .none false ["x".toList] = .typeError := by decide
+example : getPy (.ok (.one "x".toList)) .all .bad false [] = .typeError := by decide
+
+/-- with arguments of the right types `get` is the function `get_exact` is about -/
+theorem get_py_valid (t : Term) (c : Chk) (n : Option Int) (rev : Bool) (lines r : List Line) :
+    getPy (.ok t) c (numArgOf n) rev lines = .ok r ↔ get t c n rev lines = some r := by
+  cases n <;> cases hg : get t c _ rev lines <;> simp [getPy, numOf, numArgOf, hg]
+
+example : getPy (.ok (.one "e".toList)) .all (numArgOf (some 1)) true ["e1".toList, "e2".toList] = .ok ["e2".toList] := by
+  decide
+
+/-- `s in parser`: TypeError for a wrong type, an empty list, or None on a non-empty file -/
+theorem contains_py_type_error_iff (t : TermArg) (lines : List Line) :
+    containsPy t lines = .typeError ↔ t = .bad ∨ t = .ok (.many []) ∨ (t = .none ∧ lines ≠ []) := by
+  cases t with
+  | bad => simp [containsPy]
+  | ok t' =>
+    cases t' with
+    | one s => simp [containsPy, textContains, validSearch]
+    | many ws => cases ws <;> simp [containsPy, textContains, validSearch]
+  | none => cases lines <;> simp [containsPy]
+
+example : containsPy .none [] = .ok false := by decide
+
+theorem contains_py_valid (t : Term) (lines : List Line) (b : Bool) :
+    containsPy (.ok t) lines = .ok b ↔ textContains t .all lines = some b := by
+  cases h : textContains t .all lines <;> simp [containsPy, h]
+
+example : containsPy (.ok (.one "e".toList)) ["x".toList, "err".toList] = .ok true := by decide
+
+/-! ### round 10 — `time_format` (lines 1277-1357) -/
+
+theorem fmt_ok_iff (f : Str) : fmtOk f = true ↔ ∀ c ∈ directives f, c ∈ knownDirectives := by
+  simp [fmtOk, List.all_eq_true]
+
+example : directives "%Y-%m-%d %H:%M:%S".toList = ['Y', 'm', 'd', 'H', 'M', 'S'] := by decide
+example : directives "100%% %j %%Y".toList = ['j', 'Y'] := by decide
+example : fmtOk "%d/%b/%Y:%H:%M:%S %z".toList = false := by decide
+
+/-- `logs_have_year` of one format: the text contains `%Y` or `%y` -/
+theorem fmt_has_year_iff (f : Str) :
+    fmtHasYear f = true ↔ (∃ a b, f = a ++ ['%', 'Y'] ++ b) ∨ (∃ a b, f = a ++ ['%', 'y'] ++ b) := by
+  simp [fmtHasYear, contains_iff]
+
+example : fmtHasYear "%y%m%d %H:%M:%S".toList = true ∧ fmtHasYear "%b %d %H:%M:%S".toList = false := by decide
+
+/-- which error the format raises: RuntimeError exactly for None; ParseException exactly for a type that is neither
+str nor list/dict and for a format with a directive outside the table -/
+theorem fmt_check_error_iff (fa : FmtArg) :
+    (fmtCheck fa = .error .runtime ↔ fa = .none) ∧
+    (fmtCheck fa = .error .parse ↔
+      fa = .other ∨ (∃ f, fa = .str f ∧ fmtOk f = false) ∨ (∃ fs, fa = .many fs ∧ ∃ f ∈ fs, fmtOk f = false)) := by
+  cases fa with
+  | none => simp [fmtCheck]
+  | other => simp [fmtCheck]
+  | str f => cases h : fmtOk f <;> simp [fmtCheck, h]
+  | many fs =>
+    cases h : fs.all fmtOk
+    · simp only [fmtCheck, h]
+      have : ∃ f ∈ fs, fmtOk f = false := by
+        simpa [List.all_eq_true] using h
+      simp [this]
+    · simp only [fmtCheck, h]
+      have : ¬ ∃ f ∈ fs, fmtOk f = false := by
+        intro ⟨f, hf, hb⟩
+        have := (List.all_eq_true.mp h) f hf
+        simp [hb] at this
+      simp [this]
+
+example : fmtCheck (.many ["%Y-%m-%d".toList, "%j".toList]) = .error .parse := by rfl
+
+/-- `logs_have_year` as the code derives it: of the one format, or of ALL formats of a list / dict -/
+theorem fmt_check_year (fa : FmtArg) (hy : Bool) (h : fmtCheck fa = .ok hy) :
+    (∃ f, fa = .str f ∧ hy = fmtHasYear f) ∨
+    (∃ fs, fa = .many fs ∧ (hy = true ↔ ∀ f ∈ fs, fmtHasYear f = true)) := by
+  cases fa with
+  | none => simp [fmtCheck] at h
+  | other => simp [fmtCheck] at h
+  | str f =>
+    left
+    cases hf : fmtOk f <;> simp [fmtCheck, hf] at h
+    exact ⟨f, rfl, h.symm⟩
+  | many fs =>
+    right
+    cases hf : fs.all fmtOk <;> simp only [fmtCheck, hf] at h
+    · simp at h
+    · simp only [↓reduceIte, Except.ok.injEq] at h
+      exact ⟨fs, rfl, by rw [← h]; simp [List.all_eq_true]⟩
+
+example : fmtCheck (.many ["%Y-%m-%d %H:%M:%S".toList, "%b %d %H:%M:%S".toList]) = .ok false := by rfl
+example : fmtCheck (.many ["%y%m%d %H:%M:%S".toList, "%Y-%m-%d %H:%M:%S".toList]) = .ok true := by rfl
+
+/-- the format is examined before anything else: its error does not depend on the log, the threshold or `s` -/
+theorem get_after_f_format_error (fa : FmtArg) (stamp : Line → Option RawStamp) (thr : Time) (s : Option Term)
+    (lines : List Line) :
+    (getAfterF fa stamp thr s lines = .runtimeError ↔ fmtCheck fa = .error .runtime) ∧
+    (getAfterF fa stamp thr s lines = .parseError ↔ fmtCheck fa = .error .parse) := by
+  unfold getAfterF
+  cases h : fmtCheck fa with
+  | error e => cases e <;> simp
+  | ok hy => simp
+
+example : getAfterF .none (fun _ => none) ⟨2024, 1, 1, 0⟩ (some (.many [])) [] = .runtimeError := by decide
+
+/-- with a good format `get_after` is the function of `get_after_exact`, with `logs_have_year` derived from the format -/
+theorem get_after_f_ok (fa : FmtArg) (hy : Bool) (h : fmtCheck fa = .ok hy) (stamp : Line → Option RawStamp)
+    (thr : Time) (s : Option Term) (lines : List Line) :
+    getAfterF fa stamp thr s lines = .res (getAfter stamp hy thr s lines) := by
+  simp [getAfterF, h]
+
+example : getAfterF (.str "%b %d %H:%M:%S".toList) (fun _ => some ⟨none, 12, 31, 0⟩) ⟨2024, 1, 2, 0⟩ none ["Dec 31 00:00:00 x".toList]
+    = .res (.ok []) := by decide
+
+/-! ### round 10 — scanner registration (lines 842-845, 1026-1033, 1096-1179) -/
+
+/-- registering fails (ValueError) exactly when the class already has a scanner with that key -/
+theorem register_dup_iff (r : Registry) (d : ScanDef) :
+    register r d = none ↔ ∃ d' ∈ r, d'.key = d.key := by
+  simp [register, hasKey, List.any_eq_true]
+
+/-- a successful registration appends to the class's registry: earlier scanners keep their place -/
+example : register [] ⟨"k".toList, .last, .one [], .all⟩ = some [⟨"k".toList, .last, .one [], .all⟩] := by decide
+
+theorem register_appends (r r' : Registry) (d : ScanDef) (h : register r d = some r') : r' = r ++ [d] := by
+  unfold register at h
+  split at h <;> simp_all
+
+example : register [⟨"k".toList, .last, .one [], .all⟩] ⟨"k".toList, .token, .one [], .any⟩ = none := by decide
+
+/-- an operation on one class leaves the registry of every other class as it was (parent, subclass, sibling) -/
+theorem step_isolated (w : World) (op : Op) (c' : Nat) (h : c' ≠ op.cls) : (step w op).1 c' = w c' := by
+  cases op with
+  | newClass c => simp [step, setReg, Op.cls] at *; exact fun e => absurd e h
+  | reg c d =>
+    simp only [step]
+    cases register (w c) d with
+    | none => rfl
+    | some r => simp [setReg, Op.cls] at *; exact fun e => absurd e h
+  | build c ls => rfl
+
+example : (step (setReg emptyWorld 1 [⟨"k".toList, .last, .one [], .all⟩]) (.newClass 2)).1 1
+    = [⟨"k".toList, .last, .one [], .all⟩] := by decide
+
+/-- HISTORIES: after any sequence of operations the registry of a class is what the operations addressed to that
+class alone make of it -/
+theorem class_projection (ops : List Op) (w : World) (c : Nat) : (runOps w ops).1 c = ownReg c (w c) ops := by
+  induction ops generalizing w with
+  | nil => rfl
+  | cons op ops ih =>
+    simp only [runOps]
+    rw [ih]
+    cases op with
+    | newClass c' =>
+      simp only [step, ownReg, setReg]
+      by_cases h : c' = c
+      · subst h; simp
+      · have : ¬ c = c' := fun e => h e.symm
+        simp [h, this]
+    | reg c' d =>
+      simp only [step, ownReg]
+      by_cases h : c' = c
+      · subst h
+        cases hr : register (w c') d <;> simp [setReg]
+      · have : ¬ c = c' := fun e => h e.symm
+        cases hr : register (w c') d <;> simp [setReg, h, this]
+    | build c' ls => simp [step, ownReg]
+
+example : (runOps emptyWorld [.newClass 0, .reg 0 ⟨"k".toList, .last, .one [], .all⟩, .newClass 1,
+    .reg 1 ⟨"j".toList, .token, .one [], .all⟩]).1 0 = [⟨"k".toList, .last, .one [], .all⟩] := by decide
+
+/-- a class created after its parent got scanners starts with none: its objects carry no scanner attribute -/
+theorem fresh_class_has_no_scanners (w : World) (c : Nat) (lines : List Line) :
+    (step (step w (.newClass c)).1 (.build c lines)).2 = .attrs [] := by
+  simp [step, setReg, runScanners]
+
+example : (step (step (setReg emptyWorld 0 [⟨"k".toList, .last, .one [], .all⟩]) (.newClass 0)).1 (.build 0 ["x".toList])).2
+    = .attrs [] := by decide
+
+/-- an object is built exactly when no scanner of its class has an empty list of terms -/
+theorem run_scanners_type_error_iff (r : Registry) (lines : List Line) :
+    runScanners r lines = none ↔ ∃ d ∈ r, d.term = .many [] := by
+  induction r with
+  | nil => simp [runScanners]
+  | cons d ds ih =>
+    have hd : evalScan d lines = none ↔ d.term = .many [] := by
+      unfold evalScan
+      cases d.kind <;> simp [get_type_error_iff, textContains] <;>
+        (cases d.term with
+         | one s => simp [validSearch]
+         | many ws => cases ws <;> simp [validSearch])
+    simp only [runScanners]
+    cases he : evalScan d lines with
+    | none => simp [hd.mp he]
+    | some v =>
+      have : d.term ≠ .many [] := fun e => by simp [hd.mpr e] at he
+      simp [ih, this]
+
+example : runScanners [⟨"k".toList, .token, .one "e".toList, .all⟩, ⟨"j".toList, .last, .many [], .all⟩] ["e".toList] = none := by
+  decide
+
+/-- the scanner attributes of a new object: one per registered scanner, in registration order, each the value of
+its own scanner on the object's own lines -/
+theorem run_scanners_exact (r : Registry) (lines : List Line) (a : List (Str × AttrVal))
+    (h : runScanners r lines = some a) :
+    a.map (·.1) = r.map (·.key) ∧
+      r.map (fun d => (evalScan d lines).map (fun v => (d.key, v))) = a.map some := by
+  induction r generalizing a with
+  | nil => simp [runScanners] at h; subst h; simp
+  | cons d ds ih =>
+    simp only [runScanners] at h
+    cases he : evalScan d lines with
+    | none => simp [he] at h
+    | some v =>
+      simp only [he] at h
+      cases hr : runScanners ds lines with
+      | none => simp [hr] at h
+      | some a' =>
+        simp only [hr, Option.map_some, Option.some.injEq] at h
+        subst h
+        have := ih a' hr
+        exact ⟨by simp [this.1], by simp [he, this.2]⟩
+
+example : runScanners [⟨"k".toList, .token, .one "e".toList, .all⟩, ⟨"j".toList, .last, .one "e".toList, .all⟩] ["e".toList, "x".toList]
+    = some [("k".toList, .flag true), ("j".toList, .last (some "e".toList))] := by decide
+
+/-- keep_scan: the attribute is `get` on the object's lines -/
+theorem eval_keep_spec (d : ScanDef) (num : Option Int) (rev : Bool) (hk : d.kind = .keep num rev) (lines : List Line)
+    (p : Line → Bool) (hp : validSearch d.term d.chk = some p) :
+    evalScan d lines = some (.lines (
+      let hits := lines.filter p
+      let n := limit num hits.length
+      if rev then hits.drop (hits.length - n) else hits.take n)) := by
+  simp only [evalScan, hk, get_exact d.term d.chk num rev lines p hp, Option.map_some]
+
+example : evalScan ⟨"k".toList, .keep (some 1) true, .one "e".toList, .all⟩ ["e1".toList, "x".toList, "e2".toList]
+    = some (.lines ["e2".toList]) := by decide
+
+/-- last_scan: the LAST line satisfying the predicate, or the empty dictionary -/
+theorem eval_last_spec (d : ScanDef) (hk : d.kind = .last) (lines : List Line)
+    (p : Line → Bool) (hp : validSearch d.term d.chk = some p) :
+    evalScan d lines = some (.last (lines.filter p).getLast?) := by
+  simp only [evalScan, hk, get_exact d.term d.chk (some 1) true lines p hp, Option.map_some, limit]
+  congr 2
+  generalize lines.filter p = hits
+  simp only [↓reduceIte, List.head?_drop, List.getLast?_eq_getElem?]
+  congr 1
+
+example : evalScan ⟨"k".toList, .last, .one "e".toList, .all⟩ ["e1".toList, "e2".toList, "x".toList]
+    = some (.last (some "e2".toList)) := by decide
+example : evalScan ⟨"k".toList, .last, .one "z".toList, .all⟩ ["e1".toList] = some (.last none) := by decide
+
+/-- token_scan: some line satisfies the predicate (with the `check` that was registered) -/
+theorem eval_token_spec (d : ScanDef) (hk : d.kind = .token) (lines : List Line)
+    (p : Line → Bool) (hp : validSearch d.term d.chk = some p) :
+    evalScan d lines = some (.flag (lines.any p)) := by
+  simp [evalScan, hk, textContains, hp]
+
+example : (runOps emptyWorld [.newClass 0, .reg 0 ⟨"k".toList, .last, .one "e".toList, .all⟩, .newClass 1,
+    .reg 0 ⟨"k".toList, .token, .one "e".toList, .all⟩, .build 1 ["e".toList], .build 0 ["e1".toList, "x".toList, "e2".toList]]).2
+    = [.created, .registered, .created, .dupKey, .attrs [], .attrs [("k".toList, .last (some "e2".toList))]] := by decide
+
+/-! ### round 10 — LazyLogFileOutput.do_scan -/
+
+/-- each scanner is executed at most once per object: repeating `do_scan(key)` changes nothing -/
+theorem do_scan_key_once (r : Registry) (o o' : LazyObj) (k : Str) (h : doScanKey r o k = some o') :
+    doScanKey r o' k = some o' := by
+  unfold doScanKey at h ⊢
+  by_cases hc : o.scanned.contains k = true
+  · simp only [hc, ↓reduceIte, Option.some.injEq] at h; subst h; rw [if_pos hc]
+  · simp only [hc] at h
+    cases hf : r.find? (fun d => d.key == k) with
+    | none => simp [hf] at h; subst h; rw [if_neg hc]
+    | some d =>
+      cases he : evalScan d o.lines with
+      | none => simp [hf, he] at h
+      | some v => simp [hf, he] at h; subst h; simp
+
+example : doScanKey [⟨"k".toList, .token, .one "e".toList, .all⟩] ⟨["e".toList], [], []⟩ "k".toList
+    = some ⟨["e".toList], ["k".toList], [("k".toList, .flag true)]⟩ := by decide
+
+/-- `do_scan()` executes every registered scanner of the class (all keys end up in `_scanned`), and a second
+`do_scan()` changes nothing: each scanner runs at most once per object -/
+theorem do_scan_all_once (r : Registry) (o o' : LazyObj) (h : doScanAll r o = some o') :
+    (∀ d ∈ r, d.key ∈ o'.scanned) ∧ doScanAll r o' = some o' :=
+  ⟨doScanAll_covers r o o' h, doScanAll_fixed r o' (doScanAll_covers r o o' h)⟩
+
+example : doScanAll [⟨"k".toList, .token, .one "e".toList, .all⟩, ⟨"j".toList, .last, .one "e".toList, .all⟩]
+    ⟨["e".toList], ["k".toList], []⟩ = some ⟨["e".toList], ["k".toList, "j".toList], [("j".toList, .last (some "e".toList))]⟩ := by
+  decide
+
+/-! ### round 10 — `plugins.parser.invoke` (plugins.py 149-206) -/
+
+/-- a single (non-list) datasource value: an object is stored iff the construction gave one; an error-message
+output (content error) stores nothing -/
+theorem invoke_one_spec {α : Type} (b : Built α) (v : α) : invokeOne b = .value v ↔ b = .obj v := by
+  cases b <;> simp [invokeOne]
+
+example : invokeOne (Built.obj 7) = .value 7 := by decide
+
+/-- a list datasource: what is stored is exactly the objects of the constructions that gave one, in order — never
+anything for an element whose construction raised; nothing at all when there is no object, or when
+`continue_on_error=False` and some construction raised the content error or another exception -/
+theorem invoke_many_spec {α : Type} (coe : Bool) (bs : List (Built α)) :
+    invokeMany coe bs =
+      if (!coe && bs.any isErr) || (objsOf bs).isEmpty then .skipped else .values (objsOf bs) := by
+  cases coe with
+  | true => simp [invokeMany, invokeLoop_coe]
+  | false =>
+    cases h : bs.any isErr
+    · simp [invokeMany, invokeLoop_strict_ok bs h]
+    · simp [invokeMany, invokeLoop_strict_err bs h]
+
+example : invokeMany true [Built.contentError, .obj 1, .skip, .failed, .obj 2] = .values [1, 2] := by decide
+example : invokeMany false [Built.obj 1, .skip, .contentError, .obj 2] = .skipped := by decide
+example : invokeMany true [Built.contentError, (.skip : Built Nat)] = .skipped := by decide
+example : invokeOne (Built.contentError : Built Nat) = .skipped := by decide
+
+/-! ### round 10 — END TO END: command output → CommandParser → `parser.invoke` → what the broker holds -/
+
+/-- glue: the construction of a command parser as the framework sees it -/
+def builtOfCmd : CmdOutcome → Built (List Line)
+  | .contentError _ => .contentError
+  | .parsed c => .obj c
+
+/-- a single command output: the broker holds an object iff the output is not an error message, and then the
+object was built from the unchanged output -/
+theorem framework_single (lower : Str → Str) (single multi extra : List Str) (content : List Line) :
+    (invokeOne (builtOfCmd (commandInit lower single multi extra content)) = .skipped ↔
+      (BadOutput lower single multi content ∨ BadOutput lower extra extra content)) ∧
+    (¬ (BadOutput lower single multi content ∨ BadOutput lower extra extra content) →
+      invokeOne (builtOfCmd (commandInit lower single multi extra content)) = .value content) := by
+  constructor
+  · rw [← command_reject_iff]
+    cases h : commandInit lower single multi extra content <;> simp [builtOfCmd, invokeOne]
+  · intro hb
+    rw [command_accept_unchanged lower single multi extra content hb]
+    rfl
+
+example : invokeOne (builtOfCmd (commandInit asciiLower badSingleLines badLines [] ["bash: x: command not found".toList]))
+    = .skipped := by decide
+
+/-- a list datasource (one output per element), `continue_on_error=True`: the broker holds exactly the unchanged
+outputs that are not error messages, in order; nothing when every element is an error message -/
+theorem framework_list (lower : Str → Str) (single multi extra : List Str) (contents : List (List Line)) :
+    invokeMany true (contents.map (fun c => builtOfCmd (commandInit lower single multi extra c))) =
+      (let good := contents.filter (fun c => cmdValid lower single multi extra c)
+       if good.isEmpty then .skipped else .values good) := by
+  rw [invoke_many_spec]
+  have h : objsOf (contents.map (fun c => builtOfCmd (commandInit lower single multi extra c)))
+      = contents.filter (fun c => cmdValid lower single multi extra c) := by
+    induction contents with
+    | nil => rfl
+    | cons c cs ih =>
+      have hc : builtOfCmd (commandInit lower single multi extra c) =
+          if cmdValid lower single multi extra c then .obj c else .contentError := by
+        unfold commandInit
+        cases cmdValid lower single multi extra c <;> simp [builtOfCmd]
+      rw [List.map_cons, hc, List.filter_cons]
+      cases hv : cmdValid lower single multi extra c <;> simp [objsOf, ih]
+  simp [h]
+
+example : invokeMany true ([["ok".toList], ["ls: No such file or directory".toList], ["a".toList, "b".toList]].map
+    (fun c => builtOfCmd (commandInit asciiLower badSingleLines badLines [] c)))
+    = .values [["ok".toList], ["a".toList, "b".toList]] := by decide
 
 end IV.BaseParsers
